@@ -92,6 +92,23 @@ def dataclass_models():
     return [DC1, DC3, DC4, NT2, NT4]
 
 
+def same_name_models():
+    """Distinct record classes that share module and qualified name (a class built inside a helper
+    that is called more than once) but declare different fields: every constructor call is bound
+    by the signature of ITS class, whatever was lowered before in the same process (seed C06_e)."""
+    def make(order, kind):
+        if kind == "dc":
+            return dataclasses.make_dataclass("Rec", [(n, int) for n in order])
+        return NamedTuple("Rec", [(n, int) for n in order])
+    out = []
+    for kind in ("dc", "nt"):
+        for order in (["pt", "eta"], ["eta", "pt"], ["eta", "phi", "pt"], ["pt", "eta"]):
+            c = make(order, kind)
+            c.__qualname__ = "same_name_models.<locals>.Rec"
+            out.append(c)
+    return out
+
+
 def call_shapes(fields):
     out = []
     n = len(fields)
@@ -106,7 +123,7 @@ def call_shapes(fields):
     return out
 
 
-def check_dataclass(t, cls, n_pos, kws):
+def check_dataclass(t, cls, n_pos, kws, tag=""):
     from func_adl.ast.syntatic_sugar import resolve_syntatic_sugar
     fields = [f.name for f in dataclasses.fields(cls)] if dataclasses.is_dataclass(cls) \
         else list(cls._fields)
@@ -116,7 +133,7 @@ def check_dataclass(t, cls, n_pos, kws):
     lam = ast.fix_missing_locations(ast.Lambda(
         ast.arguments(posonlyargs=[], args=[ast.arg("e")], kwonlyargs=[], kw_defaults=[], defaults=[]),
         call))
-    key = f"C06:dc:{cls.__name__}:{n_pos}:{kws}"
+    key = f"C06:dc:{cls.__name__}{tag}:{n_pos}:{kws}"
     t.case(key, len(kws) > 0 and len(fields) >= 3, sample=f"{cls.__name__}({n_pos} positional, keywords {kws})")
     t.contract("convert_call_to_dict: keys bound exactly as the constructor binds them")
     rp = {"kind": "C06", "key": key}
@@ -246,7 +263,12 @@ def run(t):
         shapes = call_shapes(fields)
         for n_pos, kws in shapes:
             check_dataclass(t, cls, n_pos, kws)
-    t.bounds.append(f"{len(comps)} comprehension lambdas, 5 class models")
+    for cls in same_name_models():
+        fields = [f.name for f in dataclasses.fields(cls)] if dataclasses.is_dataclass(cls) \
+            else list(cls._fields)
+        for n_pos, kws in ((len(fields), []), (1, [fields[-1]]), (0, list(reversed(fields)))):
+            check_dataclass(t, cls, n_pos, kws, tag="#" + "".join(f[0] for f in fields))
+    t.bounds.append(f"{len(comps)} comprehension lambdas, 5 class models, 8 same-named record classes")
 
 
 def replay(payload, t):
